@@ -11,6 +11,7 @@ from typing import Union
 from liquid.filter import array_filter
 from liquid.filter import sequence_filter
 from liquid.limits import to_int
+from liquid.undefined import Undefined
 
 
 @array_filter
@@ -19,6 +20,10 @@ def index(left: Sequence[object], obj: object) -> object:
 
     `None` is returned if `obj` is not in `left`.
     """
+    if isinstance(left, Undefined):
+        # An empty array, unless the undefined type is strict.
+        left = list(left)
+
     try:
         return left.index(obj)
     except ValueError:
